@@ -153,6 +153,8 @@ PROPS = {
         "theorems": [
             "Avro.C01.zag_zig_bits", "Avro.C01.zag_zig", "Avro.C01.decodeVar_encodeVar",
             "Avro.C01.decode_encode", "Avro.C01.decode_concat",
+            "Avro.C01.conforms_decimal_bytes", "Avro.C01.conforms_decimal_fixed", "Avro.C01.conforms_bigDecimal",
+            "Avro.C01.conforms_uuidString", "Avro.C01.decimal_roundtrip",
         ],
         "harness": c01_runs,
         "projection": "okerr",
@@ -163,9 +165,11 @@ PROPS = {
         "trusted_base": DATUM_TB,
         "partial": [
             {"theorem": "Avro.C01.decode_encode",
-             "excluded_by": "none for structure; Conforms carries, for decimal/big-decimal/uuid-string values, the "
-                            "round-trip of the *modelled third-party primitive* (num-bigint signed bytes, uuid text) as an "
-                            "explicit hypothesis - discharged separately in AvroProofs.Lemmas.Prim where proved"},
+             "excluded_by": "none for structure. Conforms carries, for decimal / big-decimal / uuid-string values, the round trip of the modelled "
+                            "third-party primitive (num-bigint signed bytes, uuid text) as a premise; these are proved for every number and every uuid "
+                            "(AvroProofs/Lemmas/Prim.lean), so conforms_decimal_bytes / _fixed / conforms_bigDecimal / conforms_uuidString give conformance "
+                            "outright: a decimal conforms iff its unscaled number fits the width (decimalWidth i <= len), every big decimal and every uuid "
+                            "conforms. What remains outside is the floating-point payload (bit patterns are carried verbatim) and values beyond the allocation limit"},
         ],
         "assumptions": ["values within the allocation limit (Conforms includes length <= lim); lim < 2^63"],
     },
